@@ -364,7 +364,7 @@ func TestC01(t *testing.T) {
 	theT = t
 	vkit.Run(t, vkit.Spec[colCase]{
 		ID: "C01",
-		Rule: "rapid-generated operation lists (spans of <=6 traces: root/child/span-event/link via incoming or peer queue; advances aimed at modelled deadlines and send ticks +-1ns; sampler reloads; memory ejections) executed against the real InMemCollector (1-5 workers, real samplers and decision caches) in a synctest bubble, then drained. Oracle: per trace the forwarded uid set is all accepted uids or empty. Non-trivial: >=1 span arriving after its trace was decided, or an ejection or reload while a trace was buffered. Distinct = distinct case JSON.",
+		Rule: "rapid-generated operation lists (spans of <=6 traces: root/child/span-event/link via incoming or peer queue; advances aimed at modelled deadlines and send ticks +-1ns; sampler reloads; memory ejections) executed against the real InMemCollector (1-5 workers, real samplers and decision caches) in a synctest bubble, then drained. Oracle: per trace the forwarded uid set is all accepted uids or empty. Two extra profiles: tiny kept-decision capacity, and an LRU-pressure profile (quickly decided kept roots, reloads, late spans without the keep field). Non-trivial: >=1 span arriving after its trace was decided, or an ejection or reload while a trace was buffered. Distinct = distinct case JSON.",
 		Assumptions: []string{
 			"kept-decision capacity (1000) exceeds the 6 traces of a case; stress relief never toggles; membership fixed (premises of the statement, by construction)",
 			"an apparent violation is re-executed with re-salted trace ids and only reported if it persists (dropped-filter false positives are excluded by the statement)",
